@@ -24,6 +24,16 @@ class FakeTaskEx(object):
 UNHASH = {}
 
 
+def esc(k):
+    """context_versioning._version_key_part (repo patch 28; Ctx.esc in the model): a '.' inside a name is escaped"""
+    return k.replace('\\', '\\\\').replace('.', '\\.')
+
+
+def key_str(path):
+    """the version key of a path of names"""
+    return '.'.join(esc(k) for k in path)
+
+
 def learn_paths(published):
     """remember md5(path) -> path for every leaf path of a published dict: the model keeps version
     keys as plain paths, the implementation (hash_version_keys, the default) as their md5; the
@@ -31,8 +41,8 @@ def learn_paths(published):
     path that was ever published stays as it is and shows up as a disagreement."""
     import hashlib
     for v, val in (published or {}).items():
-        for lp in leaf_paths(val, v):
-            UNHASH[hashlib.md5(lp.encode('utf-8')).hexdigest()] = lp
+        for lp in leaf_map(val, (v,)):
+            UNHASH[hashlib.md5(key_str(lp).encode('utf-8')).hexdigest()] = key_str(lp)
 
 
 def canon_ctx(ctx):
@@ -235,15 +245,42 @@ def gen_wide_ends(rng):
     return b.tasks
 
 
+def gen_dotted(rng):
+    """Motif: a variable whose NAME contains a dot next to a dictionary with that path: `v` = {k: ..} and the
+    top-level variable "v.k" (shape-stable: no finding-G republication in these histories).  Before repo patch 28 both had the version key
+    "v.k": publishing one bumped the version of the other.  One branch publishes the dotted variable, a sibling
+    republishes the dictionary, others inherit; two or three chained joins."""
+    b = _B(rng)
+    v = rng.choice(VARS[:3])
+    deep = rng.random() < 0.4
+    skel = {'k': {'m': None}, 'n': None} if deep else {'k': None, 'n': None}
+    dotted = v + '.k'
+    root = b.add([], {v: fill(rng, skel, 'r')})
+    root = b.chain(root, rng.choice([0, 1]), noise=False)
+    a = b.add([b.chain(root, rng.choice([0, 1]), noise=False)],
+              {dotted: fill(rng, {'m': None} if deep else None, 'a')})
+    if rng.random() < 0.4:
+        a = b.add([a], {dotted: fill(rng, {'m': None} if deep else None, 'a2')})
+    sib = b.add([b.chain(root, rng.choice([0, 1]), noise=False)],
+                {v: fill(rng, skel, 'b')})
+    inh = [b.chain(root, rng.choice([1, 2]), noise=False) for _ in range(rng.choice([1, 2]))]
+    j = b.add([a, sib])
+    for e in inh:
+        j = b.add([b.chain(j, rng.choice([0, 1]), noise=False), e])
+    return b.tasks
+
+
 def gen_history(rng, n=None):
     r = rng.random()
-    if n is not None or r < 0.45:
+    if n is not None or r < 0.42:
         return gen_random(rng, n)
-    if r < 0.68:
+    if r < 0.64:
         return gen_fork_nested(rng)
-    if r < 0.85:
+    if r < 0.80:
         return gen_multi_root(rng)
-    return gen_wide_ends(rng)
+    if r < 0.95:
+        return gen_wide_ends(rng)
+    return gen_dotted(rng)
 
 
 def run_history(ctx, hist, hashed):
@@ -302,6 +339,7 @@ def run_history(ctx, hist, hashed):
             ctx.count('ctx', 'order-dependent:' + ('conflict' if conflict else 'NO-CONFLICT'))
             if not conflict:
                 sig = ({'kind': 'versioning-value-shape-change'} if shape_change(hist)
+                       else {'kind': 'version-key-collision'} if key_collision(hist)
                        else {'kind': 'order-dependent-merge'})
                 ctx.violation('upstream context depends on the order rows are listed although no '
                               'two concurrent branches publish the same variable',
@@ -430,6 +468,7 @@ def tie_final(ctx, drv, hist, inb, outb):
         oo['data'].pop('__task_execution', None)
         if norm(oo) != norm(io):
             sig = ({'kind': 'versioning-value-shape-change'} if shape_change(hist)
+                   else {'kind': 'version-key-collision'} if key_collision(hist)
                    else {'kind': 'final-context-depends-on-batch-size'})
             ctx.violation('the final context depends on the batch size of the database reads', replay, sig)
 
@@ -456,7 +495,7 @@ def tie_history(ctx, drv, hist, causal, inb, outb):
             paths |= set(causal.leaves[t['name']][v])
     for p in sorted(paths):
         mine = all(p in causal.leaves[t['name']][p[0]] for t in hist if p[0] in t['published']) and \
-            not any('.'.join(q) == '.'.join(p) and q != p for t in hist for v in causal.leaves[t['name']]
+            not any(key_str(q) == key_str(p) and q != p for t in hist for v in causal.leaves[t['name']]
                     for q in causal.leaves[t['name']][v])
         lean = drv.call('ctx.stable', {'tasks': tasks, 'var': p[0], 'rest': list(p[1:])})
         ctx.evaluated('hist', ['stable', tasks, list(p)], nontrivial=True)
@@ -468,10 +507,10 @@ def tie_history(ctx, drv, hist, causal, inb, outb):
         # the REAL inbound contexts here, decided on the model run by Lean
         pubs = [t for t in hist if p[0] in t['published']]
         spine = not any(clashes(t['published'][p[0]], p[1:]) for t in pubs) and \
-            not any('.'.join(q) == '.'.join(p) and q != p for t in hist for v in causal.leaves[t['name']]
+            not any(key_str(q) == key_str(p) and q != p for t in hist for v in causal.leaves[t['name']]
                     for q in causal.leaves[t['name']][v])
         drops = [t for t in pubs if lookup(t['published'], p)[0] == 'absent']      # as Hist.Drops
-        low = all(canon_ctx(inb[t['name']] or {})['vers'].get('.'.join(p), 0) <= 1 for t in drops)
+        low = all(canon_ctx(inb[t['name']] or {})['vers'].get(key_str(p), 0) <= 1 for t in drops)
         lean2 = drv.call('ctx.stable2', {'tasks': tasks, 'var': p[0], 'rest': list(p[1:])})
         ctx.evaluated('hist', ['stable2', tasks, list(p)], nontrivial=bool(drops))
         if not lean:
@@ -631,6 +670,18 @@ def leaf_paths(val, pre=''):
     return frozenset([pre])
 
 
+def key_collision(hist):
+    """two different leaf paths of the history that the UNREPAIRED code keys alike (names joined by '.' as they
+    are): the precondition of the dotted-name defect (repo patch 28)"""
+    seen = {}
+    for t in hist:
+        for v, val in (t['published'] or {}).items():
+            for p in leaf_map(val, (v,)):
+                if seen.setdefault('.'.join(p), p) != p:
+                    return True
+    return False
+
+
 def shape_change(hist):
     """does some variable get published with two different leaf-path sets (scalar vs dict, or dicts
     with different nested keys)?  The versioning scheme keys versions by the leaf paths of the NEW
@@ -664,6 +715,7 @@ def check_latest(ctx, hist, t, in_ctx):
             # (finding G is about MERGES: with no join at or above the task a wrong value is never G)
             merged = any(len(by[a]['parents']) >= 2 for a in anc | {t['name']})
             sig = ({'kind': 'versioning-value-shape-change'} if shape_change(hist) and merged
+                   else {'kind': 'version-key-collision'} if key_collision(hist) and merged
                    else {'kind': 'stale-value'})
             ctx.violation('a task does not see the value of the causally latest publisher',
                           {'history': hist, 'task': t['name'], 'var': v, 'expected': exp, 'got': got}, sig)
@@ -737,6 +789,7 @@ class Causal(object):
             self.anc[t['name']] = a
         self.leaves = {t['name']: {v: leaf_map(val, (v,)) for v, val in (t['published'] or {}).items()}
                        for t in hist}
+        self.collision = key_collision(hist)
 
     def before(self, a, b):
         """a is b or a strict causal ancestor of b"""
@@ -805,6 +858,8 @@ def check_leaves(ctx, stream, causal, tname, data, replay, inputs=None):
                             'republication of another shape' % ('.'.join(p), tname, kind, M))
                     clash = any(clashes(causal.by[d]['published'][v], p[1:]) for d in SC)
                     sig = {'kind': 'versioning-value-shape-change'} if merged and clash else {'kind': 'leaf-lost'}
+            if merged and causal.collision and sig['kind'] != 'versioning-value-shape-change':
+                sig = {'kind': 'version-key-collision'}
             ctx.count(stream, 'leaf-monitor-hit:' + sig['kind'])
             ctx.violation(what, dict(replay, leaf=list(p), visible=[kind, x], publishers=sorted(P),
                                      maximal=sorted(M), other_shape=sorted(SC)), sig)
